@@ -450,7 +450,8 @@ pub fn inv_terms(sn: &Snap, chain: &Chain, g: &Ghost) -> Vec<(String, T)> {
     }
     let mut rhs = vec![g.delivered.clone()];
     for p in chain.w.packets.iter() {
-        if p.sender == who.contract && p.denom == addr::NATIVE_DENOM && p.receiver == who.staker && (p.state == PState::Sent || p.state == PState::Refunded) {
+        // every staked-asset transfer of the contract goes toward the staker configured when it was sent
+        if p.sender == who.contract && p.denom == addr::NATIVE_DENOM && (p.state == PState::Sent || p.state == PState::Refunded) {
             rhs.push(p.amount.clone());
         }
     }
